@@ -23,9 +23,9 @@
 #include <cstring>
 
 NukedOPN2::NukedOPN2(OPNFamily f, bool ym3438)
-    : OPNChipBaseT(f)
+    : OPNChipBaseT(f),
+      m_chipType(ym3438 ? ym3438_mode_readmode : ym3438_mode_ym2612)
 {
-    OPN2_SetChipType(ym3438 ? ym3438_mode_readmode : ym3438_mode_ym2612);
     chip = new ym3438_t;
     setRate(m_rate, m_clock);
 }
@@ -41,6 +41,7 @@ void NukedOPN2::setRate(uint32_t rate, uint32_t clock)
     OPNChipBaseT::setRate(rate, clock);
     ym3438_t *chip_r = reinterpret_cast<ym3438_t*>(chip);
     OPN2_Reset(chip_r, rate, clock);
+    chip_r->chip_type = m_chipType;
 }
 
 void NukedOPN2::reset()
@@ -48,6 +49,7 @@ void NukedOPN2::reset()
     OPNChipBaseT::reset();
     ym3438_t *chip_r = reinterpret_cast<ym3438_t*>(chip);
     OPN2_Reset(chip_r, m_rate, m_clock);
+    chip_r->chip_type = m_chipType;
 }
 
 void NukedOPN2::writeReg(uint32_t port, uint16_t addr, uint8_t data)
